@@ -247,7 +247,8 @@ func (b *Batch) BuildGRPCDrivers(ds []*Design) map[string]string {
 	}
 	bin := filepath.Join(b.Dir, "gbin")
 	_ = os.MkdirAll(bin, 0o755)
-	args := []string{"build", "-o", bin + string(filepath.Separator)}
+	// -s -w: the binaries are many and short-lived; tracebacks only need the pclntab, which stays
+	args := []string{"build", "-ldflags=-s -w", "-o", bin + string(filepath.Separator)}
 	for _, d := range ds {
 		args = append(args, "./"+d.ID+"/"+filepath.ToSlash(GRPCDriverDir(d)))
 	}
@@ -264,7 +265,7 @@ func (b *Batch) BuildGRPCDrivers(ds []*Design) map[string]string {
 		sem <- struct{}{}
 		go func(d *Design) {
 			defer func() { <-sem }()
-			_, se, err := b.run(b.Dir, 20*time.Minute, "go", "build", "-o", b.GRPCDriverPath(d), "./"+d.ID+"/"+filepath.ToSlash(GRPCDriverDir(d)))
+			_, se, err := b.run(b.Dir, 20*time.Minute, "go", "build", "-ldflags=-s -w", "-o", b.GRPCDriverPath(d), "./"+d.ID+"/"+filepath.ToSlash(GRPCDriverDir(d)))
 			if err != nil {
 				done <- [2]string{d.ID, tail(se, 3000)}
 				return
